@@ -17,6 +17,21 @@ CHECKS = {
   note="Trusts the harness model of decode-time accumulation and ref/frag's reading of ISO/IEC 14496-12 8.8; mixed full/metadata-only fragments are outside the documented API and not generated.",
   technique="runtime monitor: recorded API histories with unique payload stamps checked against a reference model and an independent byte-level reader",
   design_ref="DESIGN.md §3 C05"),
+ "C08": dict(
+  text="Differential monitor: the repo's files plus 2 k (quick) / 100 k (thorough) generated progressive files (compact and 64-bit mdat headers, mdat before/after moov) decoded in both modes; trees, sizes, Info dumps compared, and ReadData/CopyData/CopySampleData for all small ranges, boundary+random larger ranges and all work-buffer sizes compared with the file bytes themselves; lazy mdat Encode = header only.",
+  note="Ground truth for every range is the input file's own bytes; sample ranges come from the independent table expansion (ref/stbl).",
+  technique="runtime monitor: differential execution of the two mdat modes against ground-truth file bytes",
+  design_ref="DESIGN.md §3 C08"),
+ "C09": dict(
+  text="Reference-model monitor: 3 k (quick) / 120 k (thorough) generated sample-table sets (run-length stts/ctts, multi-entry stsc, stsz uniform/explicit, stco/co64, stss, sdtp), installed via builders and via encode->decode; every query for every sample number, every interval (N<=48 exhaustive) and every time is compared with the naive per-sample expansion computed by ref/stbl from the encoded bytes.",
+  note="Reference semantics from ISO/IEC 14496-12 8.6/8.7 and the doc comments (GetSampleNrAtTime = 1 + samples starting before t); GetSampleDescriptionID only on single-id tables.",
+  technique="runtime monitor: exhaustive query sweep against a naive reference expansion of the tables",
+  design_ref="DESIGN.md §3 C09"),
+ "C10": dict(
+  text="Black-box tool monitor: the built mp4ff-crop binary is run ~3.2 k (quick) / 160 k (thorough) times on generated multi-track progressive files with stamped samples at boundary/random durations; for every successful run the output is tiled by the independent walker, expanded by ref/stbl and compared per track with the first k input samples, k computed in exact rational arithmetic from the statement's definition of the end time.",
+  note="Only exit-status-0 runs are judged; tool crashes are counted in evidence (C04-style), runs where no sync sample exists at/after the duration are inconclusive.",
+  technique="runtime monitor: black-box tool runs on generated inputs with a reference-model oracle over output bytes",
+  design_ref="DESIGN.md §3 C10"),
  "C12": dict(
   text="Layout monitor: 5 k (quick) / 250 k (thorough) generated fragmented files (styp/sidx/mfra/emsg layouts x decode flags) with ground-truth byte positions; oracles: every moof/mdat in exactly one segment/fragment with true StartPos (strong boundary form for single-mechanism layouts), byte-identical re-encode in segment mode, and sidx tiling after UpdateSidx / the add-sidx binary read back from bytes by ref/frag.",
   note="Mixed delimiter layouts get only the weak grouping form (the statement does not say how mechanisms combine); durations/EPT from the harness model.",
